@@ -611,6 +611,37 @@ fn drive_likely(r: &mut Rng, n: usize, log: &mut Log, data: &str) {
     }
 }
 
+/// matches()/cmp over a product domain of identifiers (sampled): same-language pairs are favoured because
+/// that is where range flags, scripts and regions interact
+fn drive_match(r: &mut Rng, n: usize, log: &mut Log) {
+    const LANGS: &[&str] = &["en", "sr", "zh", "und", "pa", "ar", "uz"];
+    const SCRIPTS: &[&str] = &["", "Latn", "Cyrl", "Hans", "Hant", "Arab"];
+    const REGIONS: &[&str] = &["", "US", "RS", "TW", "PK", "419"];
+    const VARS: &[&str] = &["", "valencia", "1996-valencia"];
+    const EXTS: &[&str] = &["", "-u-ca-buddhist", "-t-en-h0-hybrid", "-x-foo"];
+    let mk = |r: &mut Rng, lang: &str| -> Locale {
+        let mut s = lang.to_string();
+        for part in [*r.pick(SCRIPTS), *r.pick(REGIONS), *r.pick(VARS)] {
+            if !part.is_empty() { s.push('-'); s.push_str(part); }
+        }
+        if r.chance(1, 4) { let e: &str = *r.pick(EXTS); s.push_str(e); }
+        Locale::from_bytes(s.as_bytes()).expect("well-formed by construction")
+    };
+    let mut produced = 0;
+    while produced < n {
+        let la = *r.pick(LANGS);
+        let lb = if r.chance(3, 4) { la } else { *r.pick(LANGS) };
+        let a = mk(r, la);
+        let bb = mk(r, lb);
+        for (ra, rb) in [(false, false), (false, true), (true, false), (true, true)] {
+            ev_match(log, &a, &bb, ra, rb);
+            produced += 1;
+        }
+        ev_cmp(log, &a, &bb);
+        produced += 1;
+    }
+}
+
 pub fn main(args: &[String]) {
     let get = |name: &str| args.iter().position(|a| a == name).and_then(|i| args.get(i + 1).cloned());
     let driver = args.first().cloned().unwrap_or_default();
@@ -626,6 +657,7 @@ pub fn main(args: &[String]) {
         "hist" => drive_hist(&mut r, n, &mut log, cfg!(feature = "likelysubtags")),
         "hist-nolikely" => drive_hist(&mut r, n, &mut log, false),
         "meta" => drive_meta(&mut r, n, &mut log),
+        "match" => drive_match(&mut r, n, &mut log),
         "likely" => drive_likely(&mut r, n, &mut log, &data),
         _ => {
             eprintln!("unknown driver {}", driver);
